@@ -125,6 +125,27 @@ fn neutralise(src: &str) -> String {
     src.replace("selene", "xelene")
 }
 
+/// The first piece of code of a file, measured independently of selene's `first_code`: the statement
+/// (a final `return` / `break` included) that starts earliest.
+fn first_code_of(ast: &full_moon::ast::Ast) -> Option<(usize, usize)> {
+    use full_moon::node::Node;
+    let mut best: Option<(usize, usize)> = None;
+    let mut consider = |r: Option<(full_moon::tokenizer::Position, full_moon::tokenizer::Position)>| {
+        if let Some((a, b)) = r {
+            if best.map(|x| a.bytes() < x.0).unwrap_or(true) {
+                best = Some((a.bytes(), b.bytes()));
+            }
+        }
+    };
+    for st in ast.nodes().stmts() {
+        consider(st.range());
+    }
+    if let Some(l) = ast.nodes().last_stmt() {
+        consider(l.range());
+    }
+    best
+}
+
 pub fn generate(seed: u64, n: usize, _thorough: bool) -> Cases {
     let mut cases = Cases::new("C08");
     let mut rng = Rng::new(seed);
@@ -205,7 +226,7 @@ pub fn generate(seed: u64, n: usize, _thorough: bool) -> Cases {
         comments.dedup();
         let comments_term = glist(comments.iter(), |(s, e, text)| format!("({}%N, {}%N, {})", s, e, glist(text.lines(), gcps)));
         cases.push(
-            format!("CFull {} {} {} {} {}", events_term(&ast), gopt(verif::first_code_range(&ast), grange), raw_term, imp_term, comments_term),
+            format!("CFull {} {} {} {} {}", events_term(&ast), gopt(first_code_of(&ast), grange), raw_term, imp_term, comments_term),
             json!({"kind": "end-to-end", "source": prog.src, "filters": prog.n_filters, "shapes": prog.shapes,
                    "raw_diagnostics": raw.len(), "diagnostics": imp.len(), "nontrivial": prog.n_filters > 0 && !raw.is_empty()}),
         );
@@ -218,7 +239,7 @@ pub fn generate(seed: u64, n: usize, _thorough: bool) -> Cases {
             Err(_) => continue,
         };
         let (entries, oks, errs) = entries_term(&ast);
-        let first_code = verif::first_code_range(&ast);
+        let first_code = first_code_of(&ast);
         // interesting offsets: every endpoint of every filter range, +-1
         let mut offs: Vec<usize> = vec![0, prog.src.len()];
         for e in verif::filter_ranges(&ast).iter().flatten() {
